@@ -1,6 +1,8 @@
 package main
 
 import (
+	"io"
+	"bytes"
 	"fmt"
 	"regexp"
 	"sort"
@@ -358,6 +360,32 @@ func runNumCase(ops []numOp) (coq string, fail *OracleFailure, nOK int) {
 				}
 				steps = append(steps, fmt.Sprintf("OItem (mkCfg %d%%N %s %s %s)", eff.Type, symc, cZ(int64(eff.Start)), cZ(int64(eff.Level))))
 				nOK++
+			case "Reopen":
+				data, err := d.ToBytes()
+				if err != nil {
+					setFail("saves", fmt.Sprintf("op %d: %v", i, err))
+					return
+				}
+				nd, err := document.OpenFromMemory(io.NopCloser(bytes.NewReader(data)))
+				if err != nil {
+					setFail("reopens", fmt.Sprintf("op %d: %v", i, err))
+					return
+				}
+				d = nd
+				// new notes get the ids after the highest one in use
+				o.fnNext, o.enNext = 1, 1
+				for id := range o.fn {
+					if id >= o.fnNext {
+						o.fnNext = id + 1
+					}
+				}
+				for id := range o.en {
+					if id >= o.enNext {
+						o.enNext = id + 1
+					}
+				}
+				steps = append(steps, "OReopen")
+				nOK++
 			case "Restart":
 				if op.ID < 0 {
 					d.RestartNumbering("first list")
@@ -505,6 +533,11 @@ func runC15(cfg *runCfg) error {
 		var ops []numOp
 		canGen := true
 		for i := 0; i < n; i++ {
+			// save and open, then go on with the opened document (before any table of contents: the level a table was
+			// generated with is not stored in the file)
+			if canGen && cr.chance(7) {
+				ops = append(ops, numOp{Kind: "Reopen"})
+			}
 			op := genNumOp(cr, canGen)
 			if op.Kind == "Gen" {
 				canGen = false
